@@ -34,7 +34,13 @@ impl Timestamp {
     let offset_date_time = OffsetDateTime::parse(input, &Rfc3339)
       .map_err(time::Error::from)
       .map_err(Error::InvalidTimestamp)?
-      .to_offset(UtcOffset::UTC);
+      .checked_to_offset(UtcOffset::UTC)
+      // Reject instants outside of the range 0000AD - 9999AD once normalized to UTC (see `from_unix`):
+      // the conversion would panic beyond the supported range and `to_rfc3339` could not format the year.
+      .filter(|utc| (0..10_000).contains(&utc.year()))
+      .ok_or(Error::InvalidTimestamp(time::error::Error::Format(
+        time::error::Format::InvalidComponent("invalid year"),
+      )))?;
     Ok(Timestamp(truncate_fractional_seconds(offset_date_time)))
   }
 
